@@ -305,7 +305,7 @@ func (p c09) Exec(t *core.Trace) *core.Result {
 		for _, w := range inflight {
 			for so := int64(0); so < int64(len(w.data)); {
 				// sector boundaries are absolute
-				end := ((w.off+so)/lss + 1) * lss - w.off
+				end := ((w.off+so)/lss+1)*lss - w.off
 				if end > int64(len(w.data)) {
 					end = int64(len(w.data))
 				}
